@@ -256,3 +256,5 @@ func UnwindIsViolation(id string) {}
 // MaxDecisions bounds the number of symbolic decisions on a path (an
 // unwinding bound for loops whose every iteration branches on symbolic data).
 func MaxDecisions(n int) {}
+
+func EventText(kind string) string { return "" }
